@@ -277,13 +277,34 @@ void cf_f2f(Rng& rng, int nrand)
 ////////////////////////////////////////////////////////////////////////////////
 // make_fraction
 
+// The per-case timer counts *user CPU time* of this process (ITIMER_VIRTUAL -> SIGVTALRM), not wall-clock
+// time: a search that hangs burns user time, whereas a process that is merely descheduled on a loaded
+// machine (or whose sanitizer trap is slow to be delivered) does not, so TIMEOUT cannot be spurious.
+inline void on_vtalrm(int)
+{
+    if (!vh::armed) {
+        char const msg[] = "\nHARNESS-FAULT: timer outside the escape context\n";
+        (void)!write(2, msg, sizeof msg - 1);
+        _exit(70);
+    }
+    siglongjmp(vh::jb, SIGALRM);  // reported as TIMEOUT by vh::print_fail
+}
 inline void arm(long usec)
 {
+    static bool installed = false;
+    if (!installed) {
+        struct sigaction sa;
+        memset(&sa, 0, sizeof sa);
+        sa.sa_handler = on_vtalrm;
+        sa.sa_flags = SA_NODEFER;
+        sigaction(SIGVTALRM, &sa, nullptr);
+        installed = true;
+    }
     struct itimerval it;
     memset(&it, 0, sizeof it);
     it.it_value.tv_sec = usec / 1000000;
     it.it_value.tv_usec = usec % 1000000;
-    setitimer(ITIMER_REAL, &it, nullptr);
+    setitimer(ITIMER_VIRTUAL, &it, nullptr);
 }
 inline long timeout_usec()
 {
@@ -304,15 +325,18 @@ void mf_one(F xv)
     long const us = timeout_usec();
     int rc = sigsetjmp(vh::jb, 1);
     if (rc == 0) {
+        vh::armed = 1;
         arm(us);
         F const xin = x;
         fraction<T> fr(xin);
-        arm(0);
+        arm(0);  // disarm the timer before leaving the escape context
+        vh::armed = 0;
         prv(fr.numerator);
         putchar('/');
         prv(fr.denominator);
     } else {
         arm(0);
+        vh::armed = 0;
         if (rc == SIGALRM) ++g_hangs;
         print_fail(rc);
     }
